@@ -322,6 +322,13 @@ Outcome(st, envv) ==
        THEN [class |-> "stdout", kind |-> "help", path |-> st.path]
        ELSE Finish(st, envv)
 
+\* C18: help shows the state of the variable an item falls back to - `[env:NAME: N/A]` / `[env:NAME = "value"]` for an
+\* argument, `[env:NAME: not set]` / `[env:NAME: set]` for a flag (only the first variable of an item is shown)
+HelpEnvLines(lvl, envv) ==
+  {"[env:" \o it.env \o (IF it.kind = "arg" THEN (IF envv[it.env] = "UNSET" THEN ": N/A]" ELSE " = ")
+                           ELSE (IF envv[it.env] = "UNSET" THEN ": not set]" ELSE ": set]"))
+   : it \in {x \in RangeOf(lvl.named) : x.env # "" /\ ~x.hidden /\ NamesOf(x) # {}}}
+
 (* ------------------------------------------------------------------ alphabets *)
 \* what a user can type against def; def.alpha tunes the richness per family:
 \*   words  : Seq(STRING)   plain words / values      spells : subset of {"sep","eq","glued"}
